@@ -179,9 +179,13 @@ def gradient_oracle(ctx, rng, n_geom):
             for grid in (None, dict(corr='CDD', corr_coeff=None, loss_coeff=None, axial_positions=[0.3, 0.6], solidity=0.3)):
                 cool = du.const_material('c', k=70.0, cp=1270.0, rho=850.0, mu=2.5e-4)
                 corr = dict(corr_friction=fam, corr_flowsplit=fam, corr_mixing=fam)
-                rr0 = du.make_rr(dims, flow_rate=1.0, coolant=cool, corr=corr, spacer_grid=grid)
-                rr0.z = [0.0, 1.0]
-                rr0._init_static_correlated_params(650.0)
+                try:
+                    rr0 = du.make_rr(dims, flow_rate=1.0, coolant=cool, corr=corr, spacer_grid=grid)
+                    rr0.z = [0.0, 1.0]
+                    rr0._init_static_correlated_params(650.0)
+                except Exception:
+                    ctx.count("gradient_reference_bundle_not_evaluable")      # evaluability is the business of oracle()
+                    continue
                 bl, bt = rr0.corr_constants['ff']['Re_bnds']
                 for Re in (10.0, 300.0, bl, rng.uniform(bl, 2 * bl), 5.0e3, rng.uniform(0.6 * bt, bt), bt * (1 - 1e-9), bt, 1.0e5, 1.0e6):
                     mfr = Re * 2.5e-4 * rr0.bundle_params['area'] / rr0.bundle_params['de']
